@@ -257,7 +257,7 @@ def zstate_of(conn):
             for sid, s in conn.streams.items():
                 sm = s.state_machine
                 ecl = s._expected_content_length
-                out.append({'sid': absn.i32(sid), 'st': sm.state.name, 'cl': tri(sm.client), 'hs': tri(sm.headers_sent),
+                out.append({'sid': absn.i32(sid), 'mof': absn.i32(s.max_outbound_frame_size), 'st': sm.state.name, 'cl': tri(sm.client), 'hs': tri(sm.headers_sent),
                             'ts': tri(sm.trailers_sent), 'hr': tri(sm.headers_received),
                             'tr': tri(sm.trailers_received), 'by': by(sm.stream_closed_by),
                             'ow': absn.i32(s.outbound_flow_control_window), 'iw': wm(s._inbound_window_manager),
